@@ -118,6 +118,18 @@ def _count(branch, sizes):
     return fixed, per, payload
 
 
+def _own_or_pulled_up(prog, c, name):
+    """the class's method, or the one a private intermediate base class (between it and BVLPDU) provides"""
+    if name in c.methods:
+        return c.methods[name]
+    for k in prog.mro(c)[1:]:
+        if k.name in ("BVLPDU", "BVLCI", "PCI", "PDUData", "object"):
+            break
+        if name in k.methods:
+            return k.methods[name]
+    return None
+
+
 @rule("C09.R2", "the length each function declares equals the number of octets its encoder emits", floor=12, engines="E4 symbolic octet count")
 def r2(ctx):
     prog = ctx.prog
@@ -125,7 +137,7 @@ def r2(ctx):
     for name, (fixed, entry, payload) in REF.items():
         c = prog.cls(MOD, name)
         ev = Evaluator(prog, m, c)
-        e = c.methods.get("encode")
+        e = _own_or_pulled_up(prog, c, "encode")
         init = c.methods.get("__init__")
         if e is None or init is None:
             raise AnchorMissing("%s.encode/__init__" % name)
@@ -222,7 +234,7 @@ def r3(ctx):
     m = prog.module(MOD)
     for name, (fixed, entry, payload) in REF.items():
         c = prog.cls(MOD, name)
-        e, d = c.methods.get("encode"), c.methods.get("decode")
+        e, d = _own_or_pulled_up(prog, c, "encode"), _own_or_pulled_up(prog, c, "decode")
         if e is None or d is None:
             raise AnchorMissing("%s.encode/decode" % name)
         enc = [b for b in extract(prog, c, e, "encode") if consistent_branch(b) and b.term != "raise"]
@@ -302,7 +314,7 @@ def r3(ctx):
             problems.append("layout %r, Annex J.2 prescribes %r" % (gotsig, wantsig))
         ctx.check("%s:trace" % name, not problems, where(m, c.node), "; ".join(problems)[:600], facts={"encode": eb.describe()[:300], "decode": db.describe()[:300]})
         for mn, pat in (("encode", "BVLCI.update(%s, self)"), ("decode", "BVLCI.update(self, %s)")):
-            f = c.methods[mn]
+            f = _own_or_pulled_up(prog, c, mn)
             pp = f.args.args[1].arg
             ctx.check("%s.%s:header" % (name, mn), any(norm(x) == pat % pp for x in calls_in(f)), where(m, f), "%s must copy the BVLCI with %s" % (mn, pat % pp))
     # pack_ip_addr <-> unpack_ip_addr
@@ -391,3 +403,9 @@ def r4(ctx):
 def r5_reads(ctx):
     from .c02 import pdudata_reads
     pdudata_reads(ctx)
+
+
+@rule("C09.R6", "every port a frame can carry (0..65535) is accepted by the address constructor the decoders use", floor=1, engines="E1 facts + E5 (shared with C18.R8)")
+def r6_ports(ctx):
+    from .c18 import ports_accepted
+    ports_accepted(ctx)
